@@ -6,6 +6,7 @@ import (
 	"context"
 	"errors"
 	"net/http"
+	"time"
 
 	v1 "github.com/fatedier/frp/pkg/config/v1"
 	"github.com/fatedier/frp/zzverif"
@@ -18,6 +19,21 @@ var c19 struct {
 }
 
 var errC19 = errors.New("probe failed")
+
+// time budget handed to each probe (stubs of context.WithDeadline / WithTimeout and time.Now)
+var c19Budgets []time.Duration
+
+const c19NowNs = int64(1000 * time.Second)
+
+func c19StubNow() time.Time { return time.Time{}.Add(time.Duration(c19NowNs)) }
+func c19StubWithDeadline(parent context.Context, d time.Time) (context.Context, context.CancelFunc) {
+	c19Budgets = append(c19Budgets, d.Sub(c19StubNow()))
+	return context.WithCancel(parent)
+}
+func c19StubWithTimeout(parent context.Context, d time.Duration) (context.Context, context.CancelFunc) {
+	c19Budgets = append(c19Budgets, d)
+	return context.WithCancel(parent)
+}
 
 // stub for (*Monitor).doCheck: scripted probe outcomes; the monitor is stopped after the last one
 func c19StubDoCheck(m *Monitor, ctx context.Context) error {
@@ -42,9 +58,17 @@ func VerifC19Health() {
 	for i := 0; i <= n; i++ { // one extra outcome is consumed by the stop iteration
 		c19.outcomes = append(c19.outcomes, zzverif.Bool("probeOK"))
 	}
-	m := NewMonitor(context.Background(), v1.HealthCheckConfig{Type: "tcp", MaxFailed: maxFailed}, "127.0.0.1:1",
+	c19Budgets = nil
+	timeoutS := 1 + zzverif.Choice("timeoutSeconds", 3)
+	m := NewMonitor(context.Background(), v1.HealthCheckConfig{Type: "tcp", MaxFailed: maxFailed, TimeoutSeconds: timeoutS, IntervalSeconds: 10}, "127.0.0.1:1",
 		func() { c19.events = append(c19.events, "up") }, func() { c19.events = append(c19.events, "down") })
 	m.checkWorker()
+
+	// every probe runs under the configured timeout, so that a backend that hangs counts as failed
+	zzverif.Assert(len(c19Budgets) == n+1, "C19.health.every-probe-has-a-deadline")
+	for _, b := range c19Budgets {
+		zzverif.Assert(b == time.Duration(timeoutS)*time.Second, "C19.health.probe-deadline-is-the-configured-timeout")
+	}
 
 	// reference
 	var want []string
